@@ -152,7 +152,12 @@ def rule_single_door(ctx):
             for s in b["s"]:
                 if s["k"] == "assign" and s["r"]["k"] == "agg" and s["r"].get("def") == BS:
                     cons.add(root_fn(f).qname)
-    ctx.ob(R, "constructors of BlockStore", cons == {EM + "::new"}, "BlockStore is built only in EngineManager::new" if cons == {EM + "::new"} else "BlockStore is constructed in %s" % sorted(cons))
+    # EngineManager's constructors: associated functions without a self parameter that return the manager
+    def is_ctor(q):
+        l = ctx.F.by_qname.get(q, [])
+        return bool(l) and q.startswith(EM + "::") and l[0].kind in ("fn", "method") and q.rsplit("::", 1)[1].startswith("new") and not any(n == "self" for n in l[0].var_names().values())
+    okc = bool(cons) and all(is_ctor(q) for q in cons)
+    ctx.ob(R, "constructors of BlockStore", okc, "BlockStore is built only in EngineManager's constructor(s) %s" % sorted(q.rsplit("::", 1)[1] for q in cons) if okc else "BlockStore is constructed in %s" % sorted(cons))
     # watch mutation API on the BlockStore watch
     mut = []
     for f in non_test(ctx):
@@ -327,12 +332,19 @@ def rule_eviction(ctx):
     f = ctx.fn(BS + "::truncate_cache")
     T = ctx.T(f)
 
+    def is_cap(t):
+        # the capacity bound: the constant, or a configuration field of the store that nothing in this function changes
+        if t[0] in ("cdef", "const"):
+            return True
+        base, path = field_path(t)
+        return len(path) == 1 and "capacity" in path[0] and base[0] in ("param", "upvar")
+
     def m1(a, b):
         ra, na = chain(a)
-        if na[-2:] == ["cache", "len()"] and (b[0] in ("cdef", "const")):
+        if na[-2:] == ["cache", "len()"] and is_cap(b):
             return 1
         rb, nb = chain(b)
-        if nb[-2:] == ["cache", "len()"] and (a[0] in ("cdef", "const")):
+        if nb[-2:] == ["cache", "len()"] and is_cap(a):
             return -1
         return 0
 
